@@ -42,12 +42,20 @@ def check_case(case):
     s = case["s"]
     n = normalise(s)
     valid = len(n) > 0 and all(c in T.AASET for c in n)
+    if not valid and s != "" and len(s) <= 3:
+        try:
+            SP(s, sequenceFile="/nonexistent/vmc_c13.fasta")
+            v("invalid-string-accepted-with-file-argument", "SequenceParameters(%r, sequenceFile=...) produced an object" % (s,), normalised=n)
+        except Exception:  # noqa
+            pass
     try:
         o = SP(s)
     except Exception as e:  # noqa
         if valid:
             v("valid-string-rejected", "SequenceParameters(%r) raised %r but normalises to the valid word %s" % (s, e, n), normalised=n)
         return out, "rejected", 1
+    if not valid and case.get("with_file"):
+        pass
     if not valid:
         try:
             shown = o.get_sequence()
@@ -71,6 +79,16 @@ def check_case(case):
     d = diff(a, ref_vec(n))
     if d:
         v("analysis-differs:" + d[0], "SequenceParameters(%r).%s = %r but the normalised word %s gives %r" % (s, d[0], d[1], n, d[2]),
+          normalised=n)
+    # the string together with a (never opened) sequenceFile argument: the string still decides
+    try:
+        o3 = SP(s, sequenceFile="/nonexistent/vmc_c13.fasta")
+        if o3.get_sequence() != n or api_vector(o3, light=True) != api_vector(SP(n), light=True):
+            v("string-with-file-argument", "SequenceParameters(%r, sequenceFile=...) gives sequence %r / different analyses" % (s, o3.get_sequence()),
+              normalised=n)
+        calls += 12
+    except Exception as e:  # noqa
+        v("string-with-file-argument", "SequenceParameters(%r, sequenceFile=...) raised %r although the string alone is accepted" % (s, e),
           normalised=n)
     # the same residues in the same letter case handed over as a backend Sequence (no validation on that route):
     # upper-casing and the bookkeeping derived from it must still agree with the normalised word
@@ -137,11 +155,35 @@ def shard_crosstalk(order):
             acc.transitions += calls
             acc.out(verdict)
             for x in v:
-                acc.viol(x["key"] + "(after parsing files)" if order == "files-first" else x["key"], x["what"],
+                acc.viol(x["key"] + ("(after parsing files)" if order == "files-first" else ("(after other API calls)" if order == "api-first" else "")), x["what"],
                          {"kind": "crosstalk", "order": order, "s": s_})
+    def do_api():
+        """Other API areas first: every analysis, user alphabets that merge residues, complexity, plots, shuffles."""
+        from localcider.sequenceParameters import SequenceParameters as SP2
+        o = SP2("ACDEFGHIKLMNPQRSTVWY")
+        api_vector(o)
+        merge = {a: ("K" if a in "KRH" else ("S" if a in "STM" else "A")) for a in T.AA}
+        try:
+            o.get_reduced_alphabet_sequence(userAlphabet=dict(merge))
+            o.get_linear_complexity("WF", userAlphabet=dict(merge), blobLen=5)
+            o.get_linear_complexity("LZW", 2, blobLen=4)
+            o.get_kappa_X(["M", "W"], ["C"])
+            o.get_linear_sequence_composition(3, [["M", "m"], ["W"]])
+            o.get_shuffled_sequence([0, 1])
+            o.show_linearComplexity("LC", userAlphabet=dict(merge), blobLen=6, getFig=True)
+            import matplotlib.pyplot as plt
+            plt.close("all")
+        except Exception:  # noqa
+            pass
+    api_strings = ["m k v", "acdefghiklmnpqrstvwy", "WYVTSRQPNMLKIHGFEDCA\n", "M", "w c", "MX", "m1"]
     if order == "files-first":
         do_files()
         do_strings()
+    elif order == "api-first":
+        do_api()
+        strings[:] = api_strings + strings
+        do_strings()
+        do_files()
     else:
         do_strings()
         do_files()
@@ -219,7 +261,7 @@ def run(tier, seed, t0):
     shards += [("insert", lo, min(top, lo + step)) for lo in range(0, top, step)]
     shards.append(("nonstring",))
     shards.append(("longs",))
-    shards += [("crosstalk", "files-first"), ("crosstalk", "strings-first")]
+    shards += [("crosstalk", "files-first"), ("crosstalk", "strings-first"), ("crosstalk", "api-first")]
     shards = [s for s in shards if s[0] != "empty"]
     shards.sort(key=lambda s: -(s[1] if s[0] == "words" else 3))
     acc = core.pmap(shard, shards)
